@@ -82,7 +82,8 @@ SCRIPTS = ["preinst", "postinst", "prerm", "postrm", "config"]
 FNAMES = ["usr/bin/tool", "usr/share/doc/pkg/copyright", "etc/pkg.conf", "file with spaces",
           "usr/share/my pkg/a b.txt", "opt/ünï/däta.bin", "x", "usr/lib/libx.so.1",
           "var/lib/" + "n" * 90 + "/long-name-file", "usr/share/doc/pkg/changelog.gz",
-          "boot/.hidden", "usr/bin/tool2"]
+          "boot/.hidden", "usr/bin/tool2", "usr/share/odd\x0cname", "usr/share/ls\u2028name",
+          "opt/nel\x85x"]
 DEFECTS = [None] * 22 + ["no_info", "no_control", "no_data",
            "two_control", "two_data", "no_control_no_data", "two_data_raw"]
 
